@@ -41,7 +41,7 @@ def handle (op : String) (args : List String) (impl : String) : String :=
     match bytesOfHex hb with
     | none => badReq "hex"
     | some bs =>
-      if variant == "signE" then
+      if variant == "signE" || variant == "signNow" then
         -- a real signature: its bytes are not predictable; the spec is judged on the observation alone
         -- (an intro starts at both header offsets of the written bytes, distance payload offset → end = payload length)
         let toks := (impl.splitOn " ").filter (· ≠ "")
@@ -50,13 +50,14 @@ def handle (op : String) (args : List String) (impl : String) : String :=
             let n (x : String) := ((x.splitOn "=").getLast?.getD "").toNat?.getD 0
             verdictOf (l == "0" && s == "96" && i1 == "i1=true" && i2 == "i2=true" && 96 < n h && n h < n p && n wl - n p == n cl)
           | _ => if impl == "err" then "dontcare" else "fails:malformed-observation"
-        answer "*" v "variant-signE"
+        answer "*" v s!"variant-{variant}"
       else
       match parsePackage bs with
       | .ok p0 =>
         let sig : Header := match variant with
           | "clearsig" => RpmVerif.Bld.signatureHeader [] (some ((hexOfBytes (Hash.sha256L (writeHeader p0.md.header))).toUTF8.toList))
-          | _ => ⟨0, 0, [], []⟩
+          | "clear" => p0.md.signature.clear     -- `Header::clear` (Model/Header.lean; C16.offsets_cleared)
+          | _ => Header.empty                    -- `Header::new_empty` (C16.offsets_new_empty)
         let p : Package := ⟨⟨p0.md.lead, sig, p0.md.header⟩, p0.content⟩
         let w := writePackage p
         let o := offsets p.md
